@@ -111,6 +111,19 @@ struct Ctl {
   std::map<int, std::unique_ptr<Thr>> thr;
   unsigned long stepNo = 0;
   int hang_secs = 20;
+  // schedule points whose site name does not start with one of these prefixes are ignored (other engines' hooks);
+  // empty = accept all.  "begin" is always accepted.
+  std::vector<std::string> accept;
+  std::map<const char*, bool> acceptCache;
+  bool accepted(const char* site) {
+    if (accept.empty()) return true;
+    auto it = acceptCache.find(site);
+    if (it != acceptCache.end()) return it->second;
+    bool ok = std::strcmp(site, "begin") == 0;
+    for (auto& p : accept) if (std::strncmp(site, p.c_str(), p.size()) == 0) ok = true;
+    acceptCache[site] = ok;
+    return ok;
+  }
 
   Ctl() {
     sem_init(&back, 0, 0);
@@ -138,6 +151,7 @@ struct Ctl {
     Thr* t = tl_self;
     Ctl* c = g_ctl;
     if (!t || !c) return;
+    if (!c->accepted(site)) return;   // only the token holder runs, so the cache needs no lock
     t->site = site; t->kind = kind; t->parkedAt = c->stepNo;
     t->st.store(1, std::memory_order_release);
     sem_post(&c->back);
